@@ -85,6 +85,29 @@ def run(tier, seed, build, res):
     for i in range(0, len(cases), 2000):
         universe.run(cases[i:i + 2000], res, 'parser', project, oracle_all,
                      sample_rule=lambda c, im: True)
+    class_coverage(cases, res)
+
+
+def class_coverage(cases, res):
+    """how many of the inputs lie in the document class of the end-to-end
+    theorems (decision procedure doc_in_class of coq/proofs/ClassDecide.v,
+    run in the extracted model): the theorems decide those, correspondence
+    and oracle decide the others"""
+    import seeds
+    outs = core.run_model([parsecase.model_line_class(c) for c, _, _ in cases], shards=8)
+    kinds = {}
+    for (c, d, kind), o in zip(cases, outs):
+        k = kinds.setdefault(kind, [0, 0])
+        k[0] += 1
+        if o.strip() == 'OK 1':
+            k[1] += 1
+    sd = seeds.load()
+    so = core.run_model([parsecase.model_line_class(parsecase.T2T(s, lang='en', pack='*', files={}))
+                         for s in sd], shards=8)
+    res.extra['in_proved_class'] = {
+        'by_kind': {k: {'cases': v[0], 'members': v[1]} for k, v in sorted(kinds.items())},
+        'snippets_of_repo_tests': {'cases': len(sd),
+                                   'members': len([o for o in so if o.strip() == 'OK 1'])}}
 
 
 def oracle_all(c, d, kind, im):
